@@ -266,7 +266,7 @@ func (f *frame) exec(ins ssa.Instruction, st *State) {
 	case *ssa.Call:
 		rs := f.call(i, i.Common(), st)
 		f.bindResults(i, rs)
-		if f == f.root {
+		if f == f.root || f.ghostsDeclared(i) {
 			cname := ""
 			if sc := i.Common().StaticCallee(); sc != nil {
 				cname = sc.Name()
@@ -1073,4 +1073,20 @@ func globalInitNonNil(g *ssa.Global) bool {
 	}
 	res = stores == 1 && ok
 	return res
+}
+
+// ghostsDeclared: a call executed in an inlined helper updates the root's call ghosts when the root declared them
+// (the names reachable through its static callees start at zero, see sameCallees).
+func (f *frame) ghostsDeclared(i *ssa.Call) bool {
+	cname := ""
+	if sc := i.Common().StaticCallee(); sc != nil {
+		cname = sc.Name()
+	} else if i.Common().IsInvoke() {
+		cname = i.Common().Method.Name()
+	}
+	if cname == "" {
+		return false
+	}
+	_, ok := f.e.heapSort["COUNT_"+cname]
+	return ok
 }
